@@ -311,3 +311,7 @@ pub broadcast axiom fn axiom_duplex_w<S: Duplex>(s: &S)
 pub broadcast axiom fn axiom_duplex_r<S: Duplex>(s: &S)
     ensures #[trigger] s.rd() == s.rest();
 pub broadcast group axiom_duplex { axiom_duplex_w, axiom_duplex_r }
+
+// ---- std functions without a vstd specification (TRUSTED: their documented meaning)
+pub assume_specification<T: Clone> [<[T]>::to_vec] (s: &[T]) -> (r: Vec<T>)
+    ensures r@ == s@;
